@@ -7,3 +7,131 @@ try:
     REPLAYERS.update(getattr(_ring, "REPLAYERS", {}))
 except ImportError:
     _ring = None
+
+import ast, itertools
+import numpy, z3
+from pyvc import sym, barr, modeb, loopcut
+from pyvc.sym import cur, _t
+
+PROB = "pybrops/breed/prot/sel/prob/"
+R = lambda x: (z3.ToReal(_t(x)) if _t(x).sort() == z3.IntSort() else _t(x))
+# criteria whose latent vector is "minus the contribution-weighted mean of a per-candidate data matrix"
+LINEAR = {
+    "EstimatedBreedingValue": ("EstimatedBreedingValueSelectionProblem.py", ""),
+    "GenomicEstimatedBreedingValue": ("GenomicEstimatedBreedingValueSelectionProblem.py", ""),
+    "GeneralizedWeightedGenomicEstimatedBreedingValue": ("GeneralizedWeightedGenomicEstimatedBreedingValueSelectionProblem.py", ""),
+    "ExpectedMaximumBreedingValue": ("ExpectedMaximumBreedingValueSelectionProblem.py", ""),
+    "OptimalHaploidValue": ("OptimalHaploidValueSelectionProblem.py", ""),
+    "Random": ("RandomSelectionProblem.py", ""),
+    "UsefulnessCriterion": ("UsefulnessCriterionSelectionProblem.py", "Mate"),
+}
+
+
+def _data_attr(relpath, qual):
+    node = loopcut.find_def(ast.parse(loopcut.read_source(relpath)), qual)
+    attrs = [n.attr for n in ast.walk(node) if isinstance(n, ast.Attribute) and isinstance(n.value, ast.Name) and n.value.id == "self"]
+    return attrs[0] if attrs else None
+
+
+def _linear_family(ctx, fam):
+    fname, mate = LINEAR[fam]
+    rel = PROB + fname
+    fns, attrs = {}, {}
+    for enc in ("Subset", "Real", "Integer", "Binary"):
+        cls = "%s%s%sSelectionProblem" % (fam, enc, mate)
+        fns[enc] = loopcut.Extracted(rel + ":" + cls + ".latentfn")
+        attrs[enc] = _data_attr(rel, cls + ".latentfn")
+
+    def body(e, shape, tag):
+        n, t = shape
+        data = barr.fresh("d", (n, t), "float64")
+
+        class Me:
+            pass
+
+        def me(enc):
+            o = Me()
+            setattr(o, attrs[enc], data)
+            setattr(o, attrs[enc].lstrip("_"), data)
+            return o
+        col = lambda wts: [sum((wts[i] * R(data[i, k]) for i in range(n)), z3.RealVal(0)) for k in range(t)]
+        # subset encoding: every non-empty subset in two listings
+        for ksz in range(1, n + 1):
+            for S in itertools.combinations(range(n), ksz):
+                spec = [-c / ksz for c in col([z3.RealVal(1 if i in S else 0) for i in range(n)])]
+                for order in (S, tuple(reversed(S))):
+                    out = fns["Subset"](me("Subset"), numpy.array(order))
+                    e.prove("%s:subset%s==minus-mean-of-members" % (tag, list(order)), z3.And(*[R(out[k]) == spec[k] for k in range(t)]))
+                b = numpy.array([1 if i in S else 0 for i in range(n)])
+                for enc, vec in (("Binary", b), ("Integer", 3 * b), ("Real", b * 0.25)):
+                    out = fns[enc](me(enc), vec)
+                    e.prove("%s:%s-encoding-of-subset%s-agrees" % (tag, enc.lower(), list(S)), z3.And(*[R(out[k]) == spec[k] for k in range(t)]))
+        # contribution encodings on symbolic vectors: definition and positive rescaling
+        x = barr.fresh("x", (n,), "float64", 0, None)
+        a = sym.fresh_real("a")
+        tot = sum((R(x[i]) for i in range(n)), z3.RealVal(0))
+        e.assume(z3.And(tot >= z3.RealVal("1/10000000000"), a.t > 0, a.t * tot >= z3.RealVal("1/10000000000")))
+        spec = [-c / tot for c in col([R(x[i]) for i in range(n)])]
+        out = fns["Real"](me("Real"), x)
+        e.prove(tag + ":real==minus-contribution-weighted-mean", z3.And(*[R(out[k]) == spec[k] for k in range(t)]))
+        out2 = fns["Real"](me("Real"), x * a)
+        e.prove(tag + ":real-invariant-to-positive-rescaling", z3.And(*[R(out2[k]) == R(out[k]) for k in range(t)]))
+        xi = barr.fresh("c", (n,), "int64", 0, None)
+        toti = sum((R(xi[i]) for i in range(n)), z3.RealVal(0))
+        e.assume(toti >= 1)
+        outi = fns["Integer"](me("Integer"), xi)
+        e.prove(tag + ":integer==minus-count-weighted-mean",
+                z3.And(*[R(outi[k]) == -sum((R(xi[i]) * R(data[i, k]) for i in range(n)), z3.RealVal(0)) / toti for k in range(t)]))
+        return "ok"
+    modeb.run_shapes(ctx, fam, [(1, 1), (2, 2), (3, 1)], body)
+
+
+def _reg_lin(fam):
+    fname, mate = LINEAR[fam]
+    @unit(P, "B[%s criterion: latent == definition in all four encodings, order/scale invariant]" % fam, "B", bounded=True,
+          targets=[PROB + fname + ":%s%s%sSelectionProblem.latentfn" % (fam, enc, mate) for enc in ("Subset", "Real", "Integer", "Binary")],
+          note="bounded(shape): n<=3 candidates, t<=2 traits; data and contribution vectors symbolic (sum >= 1e-10)")
+    def u(ctx):
+        _linear_family(ctx, fam)
+    return u
+
+
+for _f in LINEAR:
+    _reg_lin(_f)
+
+
+@unit(P, "A1[SelectionProblem.evalfn == declared weights x declared transformations of the latent vector]", "A1",
+      targets=[PROB + "SelectionProblem.py:SelectionProblem.evalfn"])
+def u_evalfn(ctx):
+    f = loopcut.Extracted(PROB + "SelectionProblem.py:SelectionProblem.evalfn")
+    log = []
+
+    class V:
+        def __init__(self, n): self.n = n
+        def __rmul__(self, o): return ("mul", o, self)
+        def __mul__(self, o): return ("mul", self, o)
+
+    class Me:
+        obj_wt, ineqcv_wt, eqcv_wt = V("obj_wt"), V("ineqcv_wt"), V("eqcv_wt")
+        obj_trans_kwargs, ineqcv_trans_kwargs, eqcv_trans_kwargs = {"a": 1}, {"b": 2}, {"c": 3}
+
+        def latentfn(self, x, *a, **k):
+            log.append(("latentfn", x, a, k))
+            return "LATENT"
+
+        def _tr(nm):
+            def g(self, x, latent, **kw):
+                log.append((nm, x, latent, kw))
+                return V(nm + "-out")
+            return g
+        obj_trans, ineqcv_trans, eqcv_trans = _tr("obj_trans"), _tr("ineqcv_trans"), _tr("eqcv_trans")
+    me = Me()
+    x = object()
+    obj, ineq, eq = f(me, x, "extra", kw=1)
+    ctx.record("evalfn: latent vector computed once from x with the caller's extra arguments",
+               [l for l in log if l[0] == "latentfn"] == [("latentfn", x, ("extra",), {"kw": 1})], detail=str(log))
+    for nm, out, wt, kw in (("obj", obj, Me.obj_wt, {"a": 1}), ("ineqcv", ineq, Me.ineqcv_wt, {"b": 2}), ("eqcv", eq, Me.eqcv_wt, {"c": 3})):
+        tr = [l for l in log if l[0] == nm + "_trans"]
+        ctx.record("evalfn: %s == %s_wt * %s_trans(x, latent, **%s_trans_kwargs)" % (nm, nm, nm, nm),
+                   len(tr) == 1 and tr[0][1] is x and tr[0][2] == "LATENT" and tr[0][3] == kw and isinstance(out, tuple) and out[0] == "mul"
+                   and out[1] is wt and isinstance(out[2], V) and out[2].n == nm + "_trans-out", detail=str((tr, out)))
